@@ -97,12 +97,17 @@ func Run(sh *Shared, fn *ssa.Function, opt Options) *Result {
 	res := &Result{Harness: fn.String(), Reached: map[string]bool{}}
 	work := [][]Decision{nil}
 	pathID := 0
+	DeadlineHit = false
+	Deadline = time.Time{}
+	if opt.TimeLimit > 0 {
+		Deadline = t0.Add(opt.TimeLimit)
+	}
 	for len(work) > 0 {
 		if opt.MaxPaths > 0 && pathID >= opt.MaxPaths {
 			res.MaxPaths = true
 			break
 		}
-		if opt.TimeLimit > 0 && time.Since(t0) > opt.TimeLimit {
+		if opt.TimeLimit > 0 && (time.Since(t0) > opt.TimeLimit || DeadlineHit) {
 			res.MaxPaths = true
 			break
 		}
@@ -182,7 +187,7 @@ func (in *Interp) runPath(fn *ssa.Function) (pr PathResult) {
 				case endInfeasible:
 					pr.End = "infeasible"
 				}
-				if x.kind == endBlocked || x.kind == endUnwind || x.kind == endUnsupported || x.kind == endSteps {
+				if (x.kind == endBlocked || x.kind == endUnwind || x.kind == endUnsupported || x.kind == endSteps) && !DeadlineHit {
 					if !in.concrete && len(in.syms) > 0 {
 						if rs, model, _ := in.check(nil, true); rs == smt.Sat {
 							pr.Values, pr.Symbols = in.modelValues(model)
